@@ -320,11 +320,39 @@ async def e2e(loop, case, out, stats, fps):
                     expect_run = False
             await Job(f"e{i}", id_=f"j{i}", args=args, store_result=False, _connection=conn).enqueue()
             plans.append((i, spec, mode, args, expect_run, calls))
-        w = Worker(routers=[r], messages_limit=len(plans), tasks_limit=1, handle_signals=[], _connection=conn)
+        # catch-all actors under BasicConverter: an argument-less job brings nothing, whichever way arguments travel
+        from repid.converter import BasicConverter
+        from repid.router import RouterDefaults
+
+        rb = Router(defaults=RouterDefaults(converter=BasicConverter))
+        catch_calls = []
+
+        async def catch_all(*rest, **extras):
+            catch_calls.append(("catch_all", rest, extras))
+
+        async def catch_mixed(a: int = 1, *rest, b: int = 2, **extras):
+            catch_calls.append(("catch_mixed", (a, b) + rest, extras))
+
+        rb.actor(name="catch_all")(catch_all)
+        rb.actor(name="catch_mixed")(catch_mixed)
+        n_catch = 0
+        for name in ("catch_all", "catch_mixed"):
+            for kw in ({}, {"use_args_bucketer": False}, {"args": {}}):
+                await Job(name, id_=f"k{n_catch}", store_result=False, _connection=conn, **kw).enqueue()
+                n_catch += 1
+        w = Worker(routers=[r, rb], messages_limit=len(plans) + n_catch, tasks_limit=1, handle_signals=[], _connection=conn)
         try:
             await asyncio.wait_for(w.run(), 60)
         except asyncio.TimeoutError:
             pass  # (judged below: whoever did not run shows up there)
+        stats["catch_all_noargs_jobs"] += n_catch
+        if len(catch_calls) != n_catch:
+            out.append(V("spurious_failure", "basic/noargs/catch-all", f"{n_catch} argument-less jobs for catch-all actors, {len(catch_calls)} executions"))
+        for name, pos, extras in catch_calls:
+            stats["bindings_judged"] += 1
+            want_pos = () if name == "catch_all" else (1, 2)
+            if pos != want_pos or extras:
+                out.append(V("extras_misplaced", "basic/noargs/catch-all", f"{name} enqueued without arguments was called with positional {pos!r} and extras {extras!r}"))
         for i, spec, mode, args, expect_run, calls in plans:
             stats["e2e_default_converter"] += 1
             stats["bindings_judged"] += 1
